@@ -332,3 +332,41 @@ func C17ConcurrentRegistration() {
 	}
 	sym.Reach("concurrent-registration-done")
 }
+
+// C17OneShotSlotReuse: a message fires a one-shot handler while its owner (what client.Call does on
+// its error path) removes it by id and another goroutine's registration re-uses the slot: whatever the
+// interleaving, the NEW handler of that slot stays registered (it is offered the next message, its
+// closer has not run), and every closer runs exactly once when the end point is closed.
+func C17OneShotSlotReuse() {
+	s := newZZStream()
+	e := NewEndPoint(s)
+	var closed1, closed2 int32
+	q1, q2 := make(chan *Message, 2), make(chan *Message, 2)
+	id1 := e.MakeHandler(func(hdr *Header) (bool, bool) { return hdr.ID == 1, false }, q1, func(err error) { atomic.AddInt32(&closed1, 1) })
+	done := make(chan int, 1)
+	go func() {
+		e.RemoveHandler(id1) // may find the handler already gone
+		done <- e.MakeHandler(func(hdr *Header) (bool, bool) { return hdr.ID == 2, true }, q2, func(err error) { atomic.AddInt32(&closed2, 1) })
+	}()
+	s.inject(NewMessage(NewHeader(Reply, 1, 2, 3, 1), nil))
+	<-done
+	sym.Quiesce()
+	sym.Assert(atomic.LoadInt32(&closed1) == 1, "slot-reuse/first-closer-exactly-once")
+	sym.Assert(atomic.LoadInt32(&closed2) == 0, "slot-reuse/new-handler-closed-in-place-of-the-old-one")
+	s.inject(NewMessage(NewHeader(Reply, 1, 2, 3, 2), nil))
+	sym.Quiesce()
+	select {
+	case m, ok := <-q2:
+		sym.Assert(ok && m != nil && m.Header.ID == 2, "slot-reuse/new-handler-misses-its-message")
+	default:
+		sym.Fail("slot-reuse/new-handler-misses-its-message")
+	}
+	e.Close()
+	sym.Quiesce()
+	sym.Assert(atomic.LoadInt32(&closed1) == 1 && atomic.LoadInt32(&closed2) == 1, "slot-reuse/closer-exactly-once")
+	for range q1 {
+	}
+	for range q2 {
+	}
+	sym.Reach("slot-reuse-done")
+}
